@@ -86,6 +86,14 @@ SPECS = [
          expect_error={'class': 'TranslationError', 'token': '__x'}, serves=['C05', 'C11']),
     dict(id='S-Define-econtext', text='A<i tal:define="econtext e1">x</i>B',
          expect_error={'class': 'TranslationError', 'token': 'econtext'}, serves=['C05', 'C11']),
+    # the names of a parenthesised multi-name clause are parts of the source too: a reserved one among
+    # them is reported at its own position (first, middle, last; define and repeat)
+    dict(id='S-Define-tuple-reserved', text='A<i tal:define="(a, __x) e1">x</i>B',
+         expect_error={'class': 'TranslationError', 'token': '__x'}, serves=['C05', 'C11']),
+    dict(id='S-Define-tuple-reserved-first', text='A<i tal:define="b e2; (rcontext,a) e1">x</i>B',
+         expect_error={'class': 'TranslationError', 'token': 'rcontext'}, serves=['C05', 'C11']),
+    dict(id='S-Repeat-tuple-reserved', text='A<i tal:repeat="(a, econtext, b) e1">x</i>B',
+         expect_error={'class': 'TranslationError', 'token': 'econtext'}, serves=['C05', 'C11']),
     dict(id='S-OnError-Define',
          text='A<div tal:on-error="e11"><p tal:define="a e1">%s</p></div>B' % H1,
          own_names=['a', 'error'],
